@@ -219,6 +219,6 @@ def same_outputs(ctx, fl, rnd, spec, engine, back):
                 ctx.violation("the reconstructed engine raises where the original does not (or vice versa)", {"repr": repr(engine)[:2500], "rows": block}, outs[0], outs[1])
             continue
         for ov, a, b in zip(fresh.output_variables, outs[0], outs[1]):
-            if not W.agree(ctx, a, b, "output value"):
+            if not W.same(a, b):
                 ctx.violation("the reconstructed engine computes different outputs", {"repr": repr(engine)[:2500], "rows": block, "variable": ov.name}, a, b)
                 return
